@@ -121,6 +121,9 @@ type EmitOpts struct {
 	// TagStyle (used when LowerTags is set): 0 lower-case ASCII (f1), 1 a lower-case
 	// non-ASCII first letter (éf1), 2 snake case (f_1)
 	TagStyle int
+	// LocalNames numbers the fields of every struct from 1 (F1, F2, N1 …), so that
+	// nested structs repeat the field names of the structs around them.
+	LocalNames bool
 }
 
 // Source emits Go declarations for the forest: root type T, one named struct
@@ -142,16 +145,27 @@ func Source(forest []*Node, o EmitOpts) string {
 			kids []*Node
 		}
 		var later []pending
+		lf, lg := 0, 0
 		for _, k := range kids {
 			prefix := []string{"", "*", "[]"}[k.Rep]
 			if k.Group {
 				groupNo++
+				lg++
+				fn := groupNo
+				if o.LocalNames {
+					fn = lg
+				}
 				tn := fmt.Sprintf("G%d", groupNo)
-				fmt.Fprintf(&sb, "\tN%d %s%s%s\n", groupNo, prefix, tn, tagFor(o, fmt.Sprintf("n%d", groupNo)))
+				fmt.Fprintf(&sb, "\tN%d %s%s%s\n", fn, prefix, tn, tagFor(o, fmt.Sprintf("n%d", fn)))
 				later = append(later, pending{tn, k.Kids})
 			} else {
 				leafNo++
-				fmt.Fprintf(&sb, "\tF%d %s%s%s\n", leafNo, prefix, prims[(leafNo-1+o.Offset)%len(prims)], tagFor(o, fmt.Sprintf("f%d", leafNo)))
+				lf++
+				fn := leafNo
+				if o.LocalNames {
+					fn = lf
+				}
+				fmt.Fprintf(&sb, "\tF%d %s%s%s\n", fn, prefix, prims[(leafNo-1+o.Offset)%len(prims)], tagFor(o, fmt.Sprintf("f%d", fn)))
 			}
 		}
 		sb.WriteString("}\n")
